@@ -18,6 +18,14 @@ CHECKS = {
     ),
 }
 
+CHECKS["C14"] = (
+    "E1-explicit-state",
+    "explicit-state BFS to fixpoint over operation histories of the real KeyedSet, lock-step reference model (dict key -> most recently added item)",
+    "All mappings key -> item over 3 (quick) / 4 (thorough) keys x 2 payloads, for 4 item universes (self-keyed, key function, keyed spec-class items, unhashable items), typed/untyped and both settings of enforce_item_equivalence, are reached by BFS over real operation histories; from every state every operation incl. every binary / in-place / comparison operator against every KeyedSet, built-in set and list operand of <= 2 items is executed on the real container and compared with the reference mapping (results by key set, each result item an operand's item for that key); all public reads compared after every step; raising operations must change nothing. Reaches fixpoint: exhaustive for the stated universe.",
+    "Trusts the reference model (props/c14.py apply_model); declared don't-care zones where 'algebra on keys' and 'mapping to the most recent item' disagree (see evidence assumptions); items never mutated.",
+    "DESIGN.md section 4, C14",
+)
+
 ENGINES = [
     {"name": "E1-explicit-state", "path": "mc/common.py, props/*.py (explore)", "serves_properties": [],
      "kind_free_text": "breadth-first explicit-state search over the real transition function; a state is the shortest operation history that reaches it, rebuilt by replay; canonical-form deduplication; lock-step reference model"},
